@@ -20,7 +20,7 @@ claimed = {
  'C06': dict(technique='bounded exhaustive enumeration of strings and lexeme adjacencies against a reference lexer transcribed from grammar.ebnf',
              text='Every string of length <= 3/4 over a 48-symbol alphabet and every pair/triple of ~120 lexemes joined by each separator: token kinds, values and inclusive spans of the real lexer equal the reference lexer; lexical errors are errors.', ref='5/C06'),
  'C07': dict(technique='bounded exhaustive enumeration of operator pairs/triples/quadruples and layout variants against an independent precedence-climbing reference',
-             text='All ordered pairs, triples (thorough: quadruples) of the binary operators, `as` and assignment operators with prefix/postfix wrappers: the real parse tree equals the tree fixed by the documented operator table; every separator at every gap, redundant parentheses and trailing commas leave the tree unchanged.', ref='5/C07'),
+             text='All ordered pairs, triples (thorough: quadruples) of the binary operators, `as` and assignment operators with prefix/postfix wrappers, over names and over five vocabularies of literal operands: the real parse tree equals the tree fixed by the documented operator table; every separator at every gap, redundant parentheses and trailing commas leave the tree unchanged.', ref='5/C07'),
  'C08': dict(technique='bounded exhaustive enumeration of interrupt/diagnostic/syntax-error positions over program families, single-fault programs and all single-character edits of base texts',
              text='Every interrupt span of programs ending in a throw or fatal error (both backends) is consistent with the text and within the culprit known from the IR printer; first diagnostics of single-fault programs lie within the culprit in several layouts; type-flow culprits (wrong list/option/object/function type from every kind of source reaching every kind of use site); every culprit and interrupt once more inside an imported module whose file the position must name; every syntax error and diagnostic of every single-character edit of the base texts has a consistent span and renders without panic.', ref='5/C08'),
  'C09': dict(technique='bounded exhaustive enumeration of (program, limit triple, iteration count) over a limit lattice with a differential oracle',
